@@ -84,6 +84,8 @@ type Interp struct {
 	mainPkg *ssa.Package
 	ts      *TermStore
 	solver  *Solver
+	isolver *Solver
+	cur     *Solver
 	byteTab [256]*Term
 
 	globals    map[*ssa.Global]*Value
@@ -111,6 +113,9 @@ type Interp struct {
 	pureCache    map[*ssa.Function]int
 	xcN, xcDone, xcUnknown int
 	sampled int
+	dumpN   int
+	pendingModel Model
+	fallbackSat  bool
 	// write monitor
 	frozen     map[*Value]bool
 	frozenMaps map[*MapV]bool
@@ -126,6 +131,8 @@ type Stats struct {
 	FactHits     int
 	ModelHits    int
 	Summaries    int
+	IntQ         int
+	Fallbacks    int
 }
 
 type extFn func(in *Interp, fr *frame, fn *ssa.Function, args []Value) Value
@@ -298,6 +305,13 @@ func (in *Interp) callFunction(caller *frame, fn *ssa.Function, args []Value, en
 	}
 	if h, ok := in.ext[name]; ok {
 		in.stubsUsed[name]++
+		if !opaqueTolerant[name] && !strings.HasSuffix(name, ".vfNote") {
+			for _, a := range args {
+				if hasOpaque(a) {
+					in.unsupported("opaque error-message text passed to %s", name)
+				}
+			}
+		}
 		return h(in, caller, fn, args)
 	}
 	if fn.Synthetic == "package initializer" && fn.Pkg != in.explicitInit {
@@ -806,4 +820,22 @@ func (in *Interp) typeAssert(fr *frame, ins *ssa.TypeAssert) Value {
 		in.goPanic(fr, Str{S: "interface conversion"}, fmt.Sprintf("interface conversion: interface is %s, not %s", tn, ins.AssertedType))
 	}
 	return res
+}
+
+var opaqueTolerant = map[string]bool{"fmt.Sprintf": true, "fmt.Errorf": true, "fmt.Sprint": true, "strings.Join": true}
+
+func hasOpaque(v Value) bool {
+	switch x := v.(type) {
+	case Str:
+		return x.Opq
+	case Iface:
+		return hasOpaque(x.V)
+	case []Value:
+		for _, e := range x {
+			if hasOpaque(e) {
+				return true
+			}
+		}
+	}
+	return false
 }
